@@ -54,6 +54,10 @@ impl ZXAyChip {
 
     pub fn set_regs(&mut self, regs: &[u8]) {
         self.regs.copy_from_slice(&regs[..16]);
+        // The sound generator keeps its own copy of the registers
+        for (reg, value) in self.regs.iter().enumerate() {
+            self.ay.write_register(reg as u8, *value);
+        }
     }
 }
 
